@@ -164,12 +164,12 @@ Qed.
 Definition key_in (lo hi k : bytes) : Prop := bleb lo k && bltb k hi = true.
 
 Lemma range_seq R U lo hi d :
-  dinv R U d -> store_ok (d_store d) -> adds_of d = [] -> good (compact_range R 0 lo hi d) ->
+  dinv R U d -> store_ok (d_store d) -> adds_of d = [] ->
   dinv R U (compact_range R 0 lo hi d) /\
   tstep (key_in lo hi) d (compact_range R 0 lo hi d) /\
   (wfd (d_store d) -> wfd (d_store (compact_range R 0 lo hi d))).
 Proof.
-  intros Hd Hok Ha G. unfold compact_range, compact_range_e in *. change (mkCfg R true 0 0 []) with (cfg R) in *.
+  intros Hd Hok Ha. unfold compact_range, compact_range_e in *. change (mkCfg R true 0 0 []) with (cfg R) in *.
   set (snap := sort_by rec_ltb (filter (in_range lo hi) (d_store d))) in *.
   set (d0 := mkD (d_store d) (d_ghost d) [] (d_oc d) (d_dead d) (d_trace d)) in *.
   assert (Hsnap_in : forall y, In y snap -> In y (d_store d) /\ in_range lo hi y = true).
@@ -184,16 +184,10 @@ Proof.
       destruct (Hsnap_in y Hy) as [_ Hr]. unfold in_range in *. cbn [rkey]. rewrite <- Hk. exact Hr.
     - lia.
     - intros k r v []. }
-  destruct (wloop_inv (wfd (d_store d)) R U snap snap [] (init_w d0) eq_refl (snap_ok_range lo hi _ Hok) Hl G) as (H1 & H2).
+  destruct (wloop_inv (wfd (d_store d)) R U snap snap [] (init_w d0) eq_refl (snap_ok_range lo hi _ Hok) Hl) as (H1 & H2).
   assert (T : tstep (key_in lo hi) (w_d (init_w d0)) (w_d (wloop (cfg R) snap (init_w d0)))).
   { apply wloop_tsub; [exact Ha|]. intros x Hx. destruct (Hsnap_in x Hx) as [_ Hr]. exact Hr. }
   split; [exact H1|]. split; [exact T|]. intros Hw. apply H2. exact Hw.
-Qed.
-
-Lemma compact_range_good R lo hi d : good (compact_range R 0 lo hi d) -> good d.
-Proof.
-  unfold compact_range, compact_range_e. change (mkCfg R true 0 0 []) with (cfg R). intros G.
-  apply wloop_good in G. cbn [init_w w_d] in G. intros s Hs. apply G. exact Hs.
 Qed.
 
 Lemma tsub_ok Q A B : tsub Q A B -> store_ok A -> store_ok B.
@@ -208,20 +202,17 @@ Proof.
 Qed.
 
 Lemma compact_all_seq R U : forall ranges d,
-  dinv R U d -> store_ok (d_store d) -> adds_of d = [] -> good (compact_all R 0 ranges d) ->
+  dinv R U d -> store_ok (d_store d) -> adds_of d = [] ->
   dinv R U (compact_all R 0 ranges d) /\
   tstep (touched ranges) d (compact_all R 0 ranges d) /\
   (wfd (d_store d) -> wfd (d_store (compact_all R 0 ranges d))).
 Proof.
-  induction ranges as [|[lo hi] ranges IH]; intros d Hd Hok Ha G; cbn [compact_all fold_left] in *.
+  induction ranges as [|[lo hi] ranges IH]; intros d Hd Hok Ha; cbn [compact_all fold_left] in *.
   - split; [exact Hd|]. split; [apply tstep_refl; exact Ha|auto].
   - cbn [fst snd] in *.
-    assert (G1 : good (compact_range R 0 lo hi d)).
-    { clear -G. revert G. generalize (compact_range R 0 lo hi d). induction ranges as [|[l h] rs IHr]; intros d0 G; cbn [fold_left] in G; [exact G|].
-      apply IHr in G. cbn [fst snd] in G. eapply compact_range_good; exact G. }
-    destruct (range_seq R U lo hi d Hd Hok Ha G1) as (A1 & A2 & A4).
+    destruct (range_seq R U lo hi d Hd Hok Ha) as (A1 & A2 & A4).
     pose proof A2 as (A2a & _ & A3).
-    destruct (IH (compact_range R 0 lo hi d) A1 (tsub_ok _ _ _ A3 Hok) A2a G) as (B1 & B2 & B3).
+    destruct (IH (compact_range R 0 lo hi d) A1 (tsub_ok _ _ _ A3 Hok) A2a) as (B1 & B2 & B3).
     split; [exact B1|]. split; [|intros Hw; apply B3, A4, Hw].
     eapply tstep_trans.
     + eapply tstep_weaken; [|exact A2]. intros k Hk. exists (lo, hi). split; [left; reflexivity|exact Hk].
@@ -233,21 +224,21 @@ Qed.
    to a key inside one of the ranges (nothing outside the compaction ranges is touched) *)
 Theorem compact_all_safe R V ranges (os : list outcome) :
   let d := compact_all R 0 ranges (init_d V (map (fun o => ([], o)) os)) in
-  store_ok V -> uniq_ver V -> good d ->
+  store_ok V -> uniq_ver V ->
   Forall (fun s => ds_safe s = true) (d_trace d) /\
   veq R (d_store d) V /\
   (forall y, In y (d_store d) -> In y V) /\
   (forall y, In y V -> In y (d_store d) \/ touched ranges (rkey y)) /\
   (wfd V -> wfd (d_store d)).
 Proof.
-  cbv zeta. intros Hok Hu G.
+  cbv zeta. intros Hok Hu.
   set (oc := map (fun o : outcome => ([] : list rec, o)) os) in *.
   assert (Hnil : flat_map fst oc = []) by (unfold oc; clear; induction os as [|o os IH]; [reflexivity|exact IH]).
   assert (Hd0 : dinv R V (init_d V oc)).
   { constructor; cbn [init_d d_store d_ghost d_oc d_trace]; auto.
     - apply cinv_refl.
     - intros k r v Hin. unfold adds_of in Hin. cbn [d_oc init_d] in Hin. rewrite Hnil in Hin. destruct Hin. }
-  destruct (compact_all_seq R V ranges (init_d V oc) Hd0 Hok) as ([Hc Hu' Hw Hoc Hs] & (_ & Hg & f & E & Hf) & Hwf); [exact Hnil|exact G|].
+  destruct (compact_all_seq R V ranges (init_d V oc) Hd0 Hok) as ([Hc Hu' Hw Hoc Hs] & (_ & Hg & f & E & Hf) & Hwf); [exact Hnil|].
   cbn [init_d d_store d_ghost] in *. rewrite Hg in Hc.
   split; [exact Hs|]. split; [|split; [|split]].
   - apply cinv_veq; assumption.
